@@ -549,6 +549,7 @@ func checkC41(c *Ctx) string {
 
 	checkAuthCompares(c, "C41.4d K9 the password verdict is a whole-value equality")
 	checkAuthRefusesUnknownUser(c, "C41.4c K4c the password check refuses the not-found answer of the hash lookup")
+	checkDecodersNeverExitServer(c, "C41.8 K4c a malformed request cannot exit the server process")
 	return "Static classification for unauthenticated access. Decided: every IDbms method is declared on *DbmsUnauth itself; the ones that touch the wrapped dbms are exactly the frozen nine and " +
 		"call only the method of the same name, every other method never returns normally; DbmsUnauth.dbms is read nowhere else except cmdAuth and getPassHash; of the delegating methods only " +
 		"Auth/Nonce/SessionId/LibGet/Libraries may be invoked from code reachable from the command table; for every handler in dbms.cmds (read from the composite literal) except cmdAuth, nothing " +
